@@ -147,6 +147,18 @@ def analyse_body(b, esc_fns):
                             cf = d[3]["rv"]["def"]
                             taint[dl] = ("stale:" + cf, "result of closure %s, which returns a pointer obtained under a lock that has been released" % cf)
                             changed = True
+            # a closure that captures a live guard (by reference) computes the pointer: `idx.and_then(|i| raw.get(i))`
+            if dl not in taint and ptrish(dty) and la:
+                for a in args:
+                    bl = base_local(b, defs, a)
+                    for d in defs.whole_defs(bl):
+                        if d[2] == "assign" and d[3]["rv"]["k"] == "agg" and d[3]["rv"].get("ak") == "closure":
+                            for o in d[3]["rv"].get("ops", []):
+                                if mir.is_place_op(o):
+                                    cl = base_local(b, defs, o[1])
+                                    if cl in holders and dl not in taint:
+                                        taint[dl] = (sorted(holders[cl])[0], "result of a closure that reads through the captured guard (%s)" % rname)
+                                        changed = True
             # result of a function known to leak a guard-derived pointer
             if rname in esc_fns and dl not in taint and escaping(dty):
                 taint[dl] = ("stale:" + rname, "result of %s, which returns a pointer obtained under a guard it has already released" % rname)
@@ -308,4 +320,4 @@ def canary(C):
     bodies = [b for b in C.all_bodies() if b.mir]
     m1 = RuleResult("C16.M1", "")
     rule_m1(bodies, m1)
-    return [{"rule": "C16.M1", "fired": [v.key for v in m1.violations], "expect_min": 5, "expect_absent": ["sum_locked", "read_locked"]}]
+    return [{"rule": "C16.M1", "fired": [v.key for v in m1.violations], "expect_min": 6, "expect_absent": ["sum_locked", "read_locked", "read_via_closure_locked"]}]
